@@ -29,6 +29,11 @@ def pivot():
         U("C", serialize=["x2", "yy2", "zzz2"], to_string="t"),
         U("D"),
     ], note="to_string wins over a longer serialize; longest serialize declared first"))
+    S.append(EnumSpec("Esc", [
+        U("Tab", serialize=["\t\t\t", "tab1"]), U("Acute", serialize=["é", "abc"], fields=[Field("u8")]),
+        U("Quote", serialize=["\"\"", "qqq"], fields=[Field("bool", name="b")], named=True), U("Nl", serialize=["sep/line", "\n\n\n/"]),
+        U("Braces", to_string="${{name}}", fields=[Field("u32", name="id")], named=True), U("Tb", serialize=["{{x}}y", "x"], fields=[Field("u8")]),
+    ], prefix="p/", note="literals whose SOURCE spelling (escapes, \\u{..}) is longer than a sibling with a longer VALUE; doubled braces on field-carrying variants"))
     for pre, nm in ((None, "NoPre"), ("", "EmptyPre"), ("pre_", "Pre"), ("é", "UniPre")):
         S.append(EnumSpec(nm, [
             U("Red"), U("DarkBlue", fields=[Field("u8")]), U("Gr", serialize=["g", "green"], fields=[Field("bool", name="b")], named=True),
@@ -57,7 +62,11 @@ def random_specs(rng, n):
             if r < 0.4:
                 m = rng.randint(1, 3)
                 lens = rng.sample([1, 2, 3, 5, 8], m)
-                v.serialize = [("q%d" % i) + "z" * L for L in lens]
+                fill = rng.choice(["z", "z", "\t", "é", "\""])
+                v.serialize = []
+                for L in lens:
+                    body = fill * L if rng.random() < 0.3 and len(fill.encode()) == 1 else "z" * L
+                    v.serialize.append(("q%d" % i) + body)
             if rng.random() < 0.3:
                 v.to_string = "T%d%s" % (i, "w" * rng.randint(0, 4))
             kd = rng.random()
